@@ -28,12 +28,12 @@ type tok struct {
 }
 
 type lexOutcome struct {
-	Toks     []tok
-	Err      string // lexer error message (input rejected)
-	Panic    string
-	Hang     bool
-	MaxIter  int // max scanning-loop iterations of one Next call
-	Nexts    int
+	Toks    []tok
+	Err     string // lexer error message (input rejected)
+	Panic   string
+	Hang    bool
+	MaxIter int // max scanning-loop iterations of one Next call
+	Nexts   int
 }
 
 // runLexer drives the real lexer to the end under the progress bound.
@@ -503,7 +503,7 @@ func c14Check(r *core.Rng, input string, family string) core.Result {
 
 func init() {
 	register(&core.Property{
-		ID: "C14",
+		ID:   "C14",
 		Rule: "inputs: seeded strings over the language alphabet built from token pieces (ints, floats, names, keywords, strings with escapes/newlines/specials, operator runs, brackets, newlines, blanks, comments, rare foreign characters), the repository examples and README programs, and random mutations (truncate, delete, duplicate, byte flip, splice) of those. Each accepted input is checked against the span/text/gap/run/EOL/terminator laws, a reference scanner, and one relaid-out variant. non-trivial = accepted with at least 4 tokens; distinct by input text.",
 		Assumptions: []string{
 			"string literal token text is compared modulo the \\n escape expansion that lexer_test.go pins",
